@@ -106,7 +106,31 @@ func (c02) Plan(tier string, seed int64) []mon.Workload {
 		{Name: "unary-table", N: int64(len(gen.UnaryOps)) * n * nsrc, Exhaustive: true},
 		{Name: "trees", N: trees},
 		{Name: "retyped-in-loop", N: int64(len(gen.BinOps) * len(c02Retypes) * len(c02RetypeLoops)), Exhaustive: true},
+		{Name: "literal-chains", N: int64(len(c02ChainOps) * len(c02Operands) * len(c02ChainConsts) * len(c02ChainConsts)), Exhaustive: true},
 	}
+}
+
+// literal-chains (exhaustive): `x OP c1 OP c2` with the same arithmetic
+// operator twice and integer literals as trailing operands is evaluated left
+// to right, one operation at a time, whatever x turns out to be at run time
+// (float rounding is not associative, int64 products wrap): every operand
+// value as x (through a variable) x 7 x 7 constants x 5 operators, plus the
+// mixed chain `x OP c1 OP2 c2`.
+var c02ChainOps = []string{"+", "*", "-", "/", "%", "+*", "*+", "-+"}
+var c02ChainConsts = []string{"1", "3", "5", "9007199254740993", "4294967296", "0", "7"}
+
+func c02Chain(i int64) c02Case {
+	n := len(c02ChainConsts)
+	c2 := c02ChainConsts[int(i)%n]
+	i /= int64(n)
+	c1 := c02ChainConsts[int(i)%n]
+	i /= int64(n)
+	o := c02Operands[int(i)%len(c02Operands)]
+	ops := c02ChainOps[int(i)/len(c02Operands)]
+	op1, op2 := string(ops[0]), string(ops[len(ops)-1])
+	e := gt.Bin(op2, gt.Bin(op1, gt.Ident("x"), c08Offender(c1)), c08Offender(c2))
+	stmts := []*gt.T{gt.Assign("=", gt.Ident("x"), o.Lit()), gt.Call("p", e)}
+	return c02Case{Stmts: stmts, Point: gen.ModelPoint(gen.Rand(1), nil, nil), Cell: fmt.Sprintf("%s %s c %s c", o.Class, op1, op2)}
 }
 
 // retyped-in-loop (exhaustive): an operator applied to variables that hold
@@ -179,6 +203,8 @@ func (c02) build(c *mon.Ctx, workload string, i int64) c02Case {
 	switch workload {
 	case "retyped-in-loop":
 		return c02Retyped(i)
+	case "literal-chains":
+		return c02Chain(i)
 	case "binary-table":
 		src := int(i % 3)
 		i /= 3
